@@ -12,6 +12,7 @@ import Nlmodel.Proofs.Lemmas.AlphaOnTop
 import Nlmodel.Proofs.Lemmas.NameEvalC09
 import Nlmodel.Proofs.Lemmas.NameEvalFnMain
 import Nlmodel.Proofs.Lemmas.NameEvalHC09
+import Nlmodel.Proofs.Lemmas.NameEvalBlock
 namespace Nl
 namespace C09
 
@@ -278,6 +279,28 @@ theorem C09_resolver_implements_name_scoping_with_heap_values (ast : Block) (hs 
 theorem C09_name_scoping_with_heap_values_example :
     ∃ r, resolveProgram NameEvalH.demo = .ok r ∧ ∀ F, NameEvalH.evalProgram F NameEvalH.demo = Spec.evalProgram F r :=
   NameEvalH.demo_agree
+
+/-! ### an ARBITRARY inner block (`Lemmas/NameEvalBlock*.lean`): the two clauses "an inner block may declare the same name without
+disturbing the outer variable" and "a variable ceases to exist at the end of its block", for every block, every state, every way the
+block ends (normally, `stop`, `volgende`, error), by induction on the fuel over all five evaluator functions -/
+
+/-- after ANY block the scope stack has exactly the names it had before: what the block declared is gone, nothing else was added or
+    removed, in any scope -/
+theorem C09_block_leaves_no_names (f : Nat) (b : Block) (ρ ρ' : NameEval.NState) (h : NameEval.stOf (NameEval.evalS f (.block b) ρ) = some ρ') :
+    ρ'.scopes.map (·.map Prod.fst) = ρ.scopes.map (·.map Prod.fst) :=
+  NameEval.block_names f b ρ ρ' h
+
+/-- a block that starts by declaring `x` never disturbs the outer `x`, whatever it does to its own `x` afterwards -/
+theorem C09_block_declaring_x_keeps_outer_x (f : Nat) (x : Text) (e : Expr) (rest : Block) (ρ ρ' : NameEval.NState)
+    (h : NameEval.stOf (NameEval.evalS f (.block (.cons (.letS x e) rest)) ρ) = some ρ') :
+    NameEval.lookup ρ'.scopes x = NameEval.lookup ρ.scopes x :=
+  NameEval.block_declares_first f x e rest ρ ρ' h
+
+/-- a block changes only variables it assigns: a name that is not an assignment target anywhere in the block (declarations of the same
+    name inside the block do not count) has the same value afterwards -/
+theorem C09_block_changes_only_what_it_assigns (f : Nat) (b : Block) (x : Text) (ρ ρ' : NameEval.NState) (hx : x ∉ NameEval.assignsB b)
+    (h : NameEval.stOf (NameEval.evalS f (.block b) ρ) = some ρ') : NameEval.lookup ρ'.scopes x = NameEval.lookup ρ.scopes x :=
+  NameEval.block_unassigned f b x ρ ρ' hx h
 
 end C09
 end Nl
